@@ -52,7 +52,70 @@ SPLIT = Stage(
     nontrivial=lambda e: e.get("ev") in ("Split", "Parse", "Sweep"),
 )
 
+WIRE = Stage(
+    family="wire",
+    mc={"quick": [("MC_Wire.tla", "MC_Wire_quick.cfg", "pass"), ("MC_Wire.tla", "MC_Wire_neg.cfg", "fail")],
+        "thorough": [("MC_Wire.tla", "MC_Wire.cfg", "pass"), ("MC_Wire.tla", "MC_Wire_neg.cfg", "fail")]},
+    parts={"quick": [("rt", 4), ("relay", 4)], "thorough": [("rt", 8), ("relay", 8)]},
+    trace=("Trace_Wire.tla", "Trace_Wire.cfg"),
+    nontrivial=lambda e: True,
+)
+
 CHECKS = {
+    "C01": dict(
+        stages=[WIRE],
+        technique="TLA+ layout interpreter (Wire.tla over Layouts.tla): TLC exhaustive round trip of the reference codec on "
+                  "generic small layouts + TLC validation of recorded real encode/decode round trips of all 57 PDU types",
+        level_text="TLC checks RefDecode(RefEncode(p)) = p, the length prefix and refusal of over-long slots for every well-formed "
+                   "assignment of every generic layout of <=3 fields over all field kinds (a decoder that cuts binary slots at NUL "
+                   "is the negative configuration).  Every recorded real round trip is judged by TLC: WellFormed(p) => encode ok, "
+                   "decode ok, Eq(p2,p) field-wise (optional parameters as a set), header length = Len(bytes); TooLongOnly(p) => "
+                   "encode error",
+        level_note="field values travel as octet arrays through a reflection projector keyed by the field names of Layouts.tla; the "
+                   "layouts are my transcription of the documents in doc/ (tools/layouts.py cites the sections); integers are "
+                   "covered at boundaries and random values, not their full ranges",
+        rule="one event per case: assignment -> IEncode -> bytes -> IDecode(fresh) -> fields (RT), or octets -> IDecode -> IEncode -> "
+             "IDecode (Relay); per type: every text field at boundary lengths (thorough: every length 0..width) incl. too long, fixed "
+             "binary slots with NULs, counts up to 255, body lengths up to 255 (SGIP up to 64 KiB), optional-parameter sets, random "
+             "assignments; distinct = distinct events",
+        assumptions=["layouts transcribed from doc/ (SMGP 3.0.3 PDF is encrypted; transcribed from knowledge of the standard)",
+                     "reflection projector of the harness"],
+    ),
+    "C02": dict(
+        stages=[WIRE],
+        technique="same specification: the real IEncode output is compared octet for octet with Image(type, p) computed by TLC "
+                  "from the transcribed layouts; conformant images must decode to the values they carry",
+        level_text="For every recorded encode of a well-formed assignment TLC computes the prescribed image (field order, big-endian "
+                   "integers, NUL padding, NUL terminators, length prefix, command id and sequence offsets) and compares it with the "
+                   "produced octets (optional parameters as any permutation of the reference triplets); document total lengths of "
+                   "the fixed PDUs are ASSUMEd; destination counts up to 255 and body lengths up to 255 are always included",
+        level_note="field values travel as octet arrays through a reflection projector keyed by the field names of Layouts.tla; the "
+                   "layouts are my transcription of the documents in doc/ (tools/layouts.py cites the sections); integers are "
+                   "covered at boundaries and random values, not their full ranges",
+        rule="one event per case: assignment -> IEncode -> bytes -> IDecode(fresh) -> fields (RT), or octets -> IDecode -> IEncode -> "
+             "IDecode (Relay); per type: every text field at boundary lengths (thorough: every length 0..width) incl. too long, fixed "
+             "binary slots with NULs, counts up to 255, body lengths up to 255 (SGIP up to 64 KiB), optional-parameter sets, random "
+             "assignments; distinct = distinct events",
+        assumptions=["layouts transcribed from doc/ (SMGP 3.0.3 PDF is encrypted; transcribed from knowledge of the standard)",
+                     "reflection projector of the harness"],
+    ),
+    "C11": dict(
+        stages=[WIRE],
+        technique="same specification: decode -> encode -> decode chains on mutated canonical images, judged by TLC (Relay, Canonical)",
+        level_text="Mutated canonical images (junk after NULs in fixed slots, 0xFF integers, counts/lengths +-1, duplicate tags, "
+                   "optional values of 65531/65532/65535 octets, trailing garbage, incomplete trailing triplets) and all canonical "
+                   "images go through the real chain; TLC requires re-encodability, p2 = p1, and b1 = b0 (optional parameters "
+                   "unordered) whenever the specification says b0 is canonical",
+        level_note="field values travel as octet arrays through a reflection projector keyed by the field names of Layouts.tla; the "
+                   "layouts are my transcription of the documents in doc/ (tools/layouts.py cites the sections); integers are "
+                   "covered at boundaries and random values, not their full ranges",
+        rule="one event per case: assignment -> IEncode -> bytes -> IDecode(fresh) -> fields (RT), or octets -> IDecode -> IEncode -> "
+             "IDecode (Relay); per type: every text field at boundary lengths (thorough: every length 0..width) incl. too long, fixed "
+             "binary slots with NULs, counts up to 255, body lengths up to 255 (SGIP up to 64 KiB), optional-parameter sets, random "
+             "assignments; distinct = distinct events",
+        assumptions=["layouts transcribed from doc/ (SMGP 3.0.3 PDF is encrypted; transcribed from knowledge of the standard)",
+                     "reflection projector of the harness"],
+    ),
     "C06": dict(
         stages=[SPLIT],
         technique="TLA+ relation between a text's unit stream and the produced parts (Split.tla/Text.tla): TLC exhaustive on "
